@@ -164,9 +164,11 @@ func (sesh *Session) OpenStream() (*Stream, error) {
 		sesh.streamsM.Unlock()
 		return nil, ErrBrokenSession
 	}
+	// count the stream before it becomes visible, so that the inactivity check never sees a
+	// registered stream with a zero count
+	sesh.streamCountIncr()
 	sesh.streams[id] = stream
 	sesh.streamsM.Unlock()
-	sesh.streamCountIncr()
 	log.Tracef("stream %v of session %v opened", id, sesh.id)
 	return stream, nil
 }
@@ -262,12 +264,12 @@ func (sesh *Session) recvDataFromRemote(data []byte) error {
 		return existingStream.recvFrame(frame)
 	} else {
 		newStream := makeStream(sesh, frame.StreamID)
+		// new stream: counted before it becomes visible (see OpenStream)
+		sesh.streamCountIncr()
 		sesh.streams[frame.StreamID] = newStream
 		sesh.acceptCh <- newStream
 		sesh.streamsM.Unlock()
 		vhook("recv.registered")
-		// new stream
-		sesh.streamCountIncr()
 		return newStream.recvFrame(frame)
 	}
 }
